@@ -3,7 +3,7 @@ package main
 func init() {
 	checks = append(checks, &CheckSpec{
 		Prop:    "C08",
-		Harness: []string{"c01_chain.go", "c16_keyid.go", "authz_gen.go", "c04_authz.go", "authz_rel.go", "c08_hist.go"},
+		Harness: hb(),
 		Entries: []EntrySpec{
 			{Pkg: "biscuit", Func: "VerifC08Siblings", Quick: p(), Thorough: p(), Covers: []string{"done", "two-children"}},
 			{Pkg: "biscuit", Func: "VerifC08Envelope", Quick: p("maxblocks", 4), Thorough: p("maxblocks", 6), Covers: []string{"done"}},
